@@ -2569,6 +2569,10 @@ class SliceDataset(Dataset):
             # itemgetter makes the same as
             # "tuple([keys[i] for i in self.slice])"
             # but is 10 times faster
+            if len(self.slice) == 0:
+                # operator.itemgetter needs at least one index
+                self._keys = ()
+                return self._keys
             self._keys = operator.itemgetter(*self.slice)(keys)
             if len(self.slice) == 1:
                 self._keys = (self._keys,)
